@@ -1938,3 +1938,15 @@ func extractLocksets(repo, out string) error {
 	}
 	return nil
 }
+
+func init() {
+	extraTables = append(extraTables, func(repo, out string) {
+		if out == "" {
+			return
+		}
+		if err := extractLocksets(repo, out); err != nil {
+			fmt.Fprintln(os.Stderr, "locksets:", err)
+			os.Exit(1)
+		}
+	})
+}
